@@ -22,6 +22,7 @@ SCENARIOS = {
     "C11": ["ids", "end_vs_observers"],
     "C14": ["dd_mt"],
     "C16": ["erased_blocking"],
+    "C20": ["metrics_mt"],
     "C15": ["dd_mt"],
     "C13": ["deadletters", "blocking", "end_vs_observers", "ask_vs_end", "blocking_ask_vs_end"],
 }
@@ -59,12 +60,24 @@ def setup():
         if code != 0:
             sys.stderr.write(out[-3000:])
             ck.die("Miri engine smoke run failed")
+        code, out = one_run("metrics_mt", 1, 1, "0.01")
+        if code != 0:
+            sys.stderr.write(out[-3000:])
+            ck.die("Miri engine smoke run (metrics build) failed")
     print("miri engine ready")
+
+# scenarios that need rsactor's metrics feature: a build of their own (the collector reads the wall clock on every
+# message, which would stop every other scenario under Miri's isolation) and no isolation
+METRICS_SCENARIOS = ("metrics_mt",)
 
 def one_run(scenario, wseed, miri_seed, rate):
     e = menv()
     e["MIRIFLAGS"] = f"-Zmiri-seed={miri_seed} -Zmiri-preemption-rate={rate} -Zmiri-ignore-leaks"
-    r = subprocess.run(["cargo", "+nightly", "miri", "run", "--offline", "-q", "--", scenario, str(wseed)], cwd=ck.MTH, env=e, stdout=subprocess.PIPE, stderr=subprocess.STDOUT, text=True, timeout=900)
+    cmd = ["cargo", "+nightly", "miri", "run", "--offline", "-q"]
+    if scenario in METRICS_SCENARIOS:
+        e["MIRIFLAGS"] += " -Zmiri-disable-isolation"
+        cmd += ["--features", "metrics", "--target-dir", os.path.join(ck.MTH, "target-metrics")]
+    r = subprocess.run(cmd + ["--", scenario, str(wseed)], cwd=ck.MTH, env=e, stdout=subprocess.PIPE, stderr=subprocess.STDOUT, text=True, timeout=900)
     return r.returncode, r.stdout
 
 def classify(code, out, hang_prop="C17"):
@@ -158,7 +171,7 @@ def m_part(prop, tier, seed):
     n = 12 if tier == "quick" else 240
     if prop == "C13":
         n = 20 if tier == "quick" else 400
-    if prop == "C16":
+    if prop in ("C16", "C20"):
         n = 16 if tier == "quick" else 320
     if prop in ("C01", "C02", "C06"):
         n = 8 if tier == "quick" else 160
